@@ -56,6 +56,14 @@ def main():
         code, o = run([PY, "/verif/tools_check_baseline.py", after])
         meta["stable_tests_still_pass"] = code == 0
         meta["baseline_line"] = o.strip().splitlines()[0] if o.strip() else ""
+        lost = [ln.split("NO LONGER PASSING:")[1].strip() for ln in o.splitlines() if "NO LONGER PASSING:" in ln]
+        if lost and all(t.startswith("tests.test_config.") for t in lost):
+            # tests/test_config.py works on one shared config file: suites of several worktrees re-run at the same time
+            # trip over each other there (a different test each time). Run that file alone on the changed worktree.
+            c2, o2 = run([PY, "-m", "pytest", "-q", "-p", "no:cacheprovider", "tests/test_config.py"], env={"PYTHONPATH": wt}, cwd=wt, timeout=600)
+            meta["test_config_alone"] = o2.strip().splitlines()[-1] if o2.strip() else ""
+            meta["stable_tests_still_pass"] = c2 == 0
+            meta["ran"].append("cd <worktree> && pytest tests/test_config.py alone (the parallel re-runs interfere through its shared config file): " + meta["test_config_alone"])
         meta["ran"].append("tools_check_baseline.py after.xml (agent's junit of the full suite with the change)")
     rep = tempfile.mkdtemp(prefix="seeded-replays-")
     results = {}
